@@ -151,6 +151,12 @@ class _Subst(ast.NodeTransformer):
         # a constructor call of a package class denotes the object created there
         tok = None
         if hasattr(node, 'lineno') and getattr(node, '_pnd_orig', False):
+            known = self.state.get('$ret:%d:%d' % (node.lineno, node.col_offset))
+            if known is not None:
+                try:
+                    return ast.parse(known, mode='eval').body
+                except SyntaxError:
+                    return ast.Name(id=known, ctx=ast.Load())
             r = self.client._resolve_callee(node.func, None)
             if isinstance(r, ClassRef):
                 tok = self.client.new_token(r.name, node)
@@ -443,18 +449,20 @@ class SymClient(Client):
             seen_fi = {}
             for kk, fi in r[2]:
                 seen_fi.setdefault(fi.key, (fi, []))[1].append(kk)
+            key = '$ret:%d:%d' % (getattr(call, 'lineno', 0), getattr(call, 'col_offset', 0))
             for fi, keys in seen_fi.values():
                 if _is_generator(fi.node):
                     continue
                 s_k = s.add_cond('+%s in %r' % (r[1], tuple(keys))) if len(keys) > 1 else s.add_cond('+%s == %r' % (r[1], keys[0]))
-                outs.extend(self._inline(fi, call, s_k))
+                outs.extend(o_.set(key, o_.ret) if o_.ret is not None else o_ for o_ in self._inline(fi, call, s_k))
             return outs or [s]
         if isinstance(r, ClassRef):
             return [self._alloc(call, self.new_token(r.name, call), s)]
         if isinstance(r, FuncRef):
             fi = self.repo.func(r.module, r.qualname)
             if self.inline(fi) and self.depth < 6 and not _is_generator(fi.node):
-                return self._inline(fi, call, s)
+                key = '$ret:%d:%d' % (getattr(call, 'lineno', 0), getattr(call, 'col_offset', 0))
+                return [o_.set(key, o_.ret) if o_.ret is not None else o_ for o_ in self._inline(fi, call, s)]
             if self.inline_generators and self.depth < 6 and _is_generator(fi.node) and \
                     (fi.parent is not None or self.inline(fi) or (fi.cls is not None and self.cls is not None and fi.cls.key in
                                                                   [c_.key for c_ in self.cls.mro()])):
@@ -551,6 +559,9 @@ class SymClient(Client):
     def value_term(self, e: ast.expr, s: SymState) -> str:
         """Term of an expression *after* its calls have been evaluated by _eval."""
         if isinstance(e, ast.Call):
+            known = s.get('$ret:%d:%d' % (getattr(e, 'lineno', 0), getattr(e, 'col_offset', 0)))
+            if known is not None:
+                return known      # the value the inlined callee returned on this path
             r = self._resolve_callee(e.func, s)
             if isinstance(r, ClassRef):
                 return self.new_token(r.name, e)
